@@ -92,7 +92,7 @@ func main() {
 	os.Unsetenv("VAXIS_GRAPHICS")
 	cfg := hx.ParseFlags()
 	r := cfg.Rand
-	s := hx.NewStream("embed", "model.RenderTypes model.Render model.RenderCheck model.EmuSpec", "ecase", "c12_mismatches", "c12_violations")
+	s := hx.NewStream("embed", "model.RenderTypes model.Render model.RenderCheck model.EmuSpec model.EmuBridge", "ecase", "c12_mismatches", "c12_violations_all")
 	s.ShardMax = 25
 	nHist, maxRows, maxCols, maxFrames := 160, 4, 9, 6
 	if cfg.Thorough() {
